@@ -37,28 +37,44 @@ class Observer:
         readings = scn["readings"]
         stmts = [s.strip() for s in scn["stmts"]]
         # cumulative reference states in emission order
+        rx_of0 = {}
+        for rx in fw.rx:
+            t = rx["text"].rstrip("\r\n")
+            if t in stmts:
+                rx_of0.setdefault(stmts.index(t), rx["idx"])
+        ack0 = {}
+        for e in fw.emitted:
+            if e["answers"] is not None and (e["ack"] or e["err"]):
+                ack0.setdefault(e["answers"], e["seq"])
+        discs = sorted(h[2] for h in hist if h[0] == "disc-call")
+        # acknowledgements whose write() returned, with the return stamp
+        returned = [(ack0.get(rx_of0.get(i)), r_seq) for (i, r_seq, _) in self.snaps]
+        returned = [(a, r_) for (a, r_) in returned if a is not None and a <= r_]
+
+        def surely_read(seq):
+            """The host reads lines in FIFO order: a report is certainly absorbed once a *later*
+            acknowledgement of the same session made a write() return.  A report delivered shortly
+            before or during a disconnect may never be read (unknown letters, '?')."""
+            last = None
+            for h in hist:
+                if h[2] < seq and h[0] in ("disc-call", "connect-call"):
+                    last = h[0]
+            if last == "disc-call":
+                return False        # delivered while the session was being closed
+            nd = next((d for d in discs if d > seq), float("inf"))
+            return any(a > seq and r_ < nd for (a, r_) in returned)
+
         states = [{L: None for L in ALPHABET}]
         seqs = []
-        # a line delivered while the host is disconnecting may or may not be read: the letters
-        # of such a report are unknown ("?") until a later report sets them again
-        closing = []
-        start = None
-        for h in hist:
-            if h[0] == "disc-call":
-                start = h[2]
-            elif h[0] in ("disc-ret", "disc-raise") and start is not None:
-                closing.append((start, h[2]))
-                start = None
-        if start is not None:
-            closing.append((start, float("inf")))
         for e in fw.emitted:
             if e["dropped"]:
                 continue
             vals = readings.get(e["text"].strip())
             if vals is not None:
-                if any(a <= e["seq"] <= b for a, b in closing):
+                if not surely_read(e["seq"]) and not (e["ack"] and e["answers"] is not None
+                                                      and any(a == e["seq"] for (a, _) in returned)):
                     vals = {kk: "?" for kk in vals}
-                    k.probe("c18.report_during_disconnect")
+                    k.probe("c18.report_possibly_unread")
                 states.append(apply_report(states[-1], vals))
                 seqs.append(e["seq"])
         rx_of = {}
